@@ -13,7 +13,7 @@ LEVEL = "model_checking"
 
 def configs(tier):
     if tier == "quick":
-        return [(0, 1 << 20), (1, 64), (6, 64)]
+        return [(0, 1 << 20), (1, 64), (6, 64), (5, 128), (2, 128)]
     return [(0, 1 << 20), (0, 64), (1, 64), (1, 4096), (2, 128), (5, 64), (6, 64), (6, 1 << 20)]
 
 
